@@ -122,6 +122,12 @@ func ForEach[T any](generate GenerateFunc[T], mapper ForEachFunc[T], opts ...Opt
 			panic(v)
 		case _, ok := <-collector:
 			if !ok {
+				// a mapper panic reported before the collector was closed must not be lost
+				select {
+				case v := <-panicChan.channel:
+					panic(v)
+				default:
+				}
 				return
 			}
 		}
@@ -324,6 +330,13 @@ func mapReduceWithPanicChan[T, U, V any](source <-chan T, panicChan *onceChan, m
 		drain(output)
 		panic(v)
 	case v, ok := <-output:
+		// a panic reported before the output became ready must not be lost
+		select {
+		case pv := <-panicChan.channel:
+			panic(pv)
+		default:
+		}
+
 		if e := retErr.Load(); e != nil {
 			err = e
 		} else if ok {
